@@ -27,6 +27,11 @@ impl StringNumber {
 //@  spec
         ensures sn_wf(*final(self)), final(self).significand@.len() == 0, final(self).scale == 0, final(self).point == -1, final(self).is_all_zero,
 //@end
+//@extract sudachi/src/plugin/path_rewrite/join_numeric/numeric_parser/string_number.rs :: impl StringNumber :: fn has_point
+//@  ret r
+//@  spec
+        ensures r == (self.point >= 0),
+//@end
 //@extract sudachi/src/plugin/path_rewrite/join_numeric/numeric_parser/string_number.rs :: impl StringNumber :: fn is_zero
 //@  rw R13 1 custom
 //@  | self\.significand\.len\(\)
@@ -300,6 +305,8 @@ impl NumericParser {
 //@  ret r
 //@  spec
         requires sn_wf(self.tmp),
+        // C15 (F22): a thousands separator is acceptable only inside an open digit run WITHOUT a decimal point
+        ensures r ==> !self.is_first_digit && self.tmp.point < 0,
 //@end
 //@extract sudachi/src/plugin/path_rewrite/join_numeric/numeric_parser/mod.rs :: impl NumericParser :: fn append
 //@  rw R14 1 custom
@@ -313,6 +320,10 @@ impl NumericParser {
             r ==> np_wf(*final(self)) && np_size(*final(self)) <= np_size(*old(self)) + 40,
             // C15: an accepted character updates the three accumulators exactly as the numeral system prescribes
             r ==> np_step(*old(self), *c, *final(self)),
+            // C15 (F22): an accepted thousands separator never follows the decimal point of the current digit run, and starts a new group
+            r && *c == ',' ==> old(self).tmp.point < 0 && !old(self).is_first_digit && final(self).has_comma && final(self).digit_length == 0,
+            // a refused separator or point is reported as such
+            !r && *c == ',' ==> final(self).error_state == Error::COMMA,
 //@end
 //@extract sudachi/src/plugin/path_rewrite/join_numeric/numeric_parser/mod.rs :: impl NumericParser :: fn done
 //@  ret r
